@@ -111,7 +111,7 @@ package mqtt
 // verif:def validCl(cl *Client) bool = cl != nil && cl.State.Inflight != nil && cl.State.Inflight.internal != nil && cl.ops != nil && cl.ops.hooks != nil && quotaInv(cl.State.Inflight)
 // verif:def validSrv(s *Server) bool = s != nil && s.Info != nil && s.hooks != nil && s.Options != nil && s.Options.Capabilities != nil && s.Options.Capabilities.Compatibilities != nil && 0 <= s.Options.Capabilities.MaximumMessageExpiryInterval && s.Options.Capabilities.MaximumMessageExpiryInterval <= 4611686018427387904 && cntOK(s)
 // counters stay far from the int64 limits (2^62 events do not happen)
-// verif:def cntOK(s *Server) bool = -4611686018427387904 <= s.Info.Inflight && s.Info.Inflight <= 4611686018427387904
+// verif:def cntOK(s *Server) bool = -4611686018427387904 <= s.Info.Inflight && s.Info.Inflight <= 4611686018427387904 && -4611686018427387904 <= s.Info.Subscriptions && s.Info.Subscriptions <= 4611686018427387904
 
 // verif:func mqtt.Client.WritePacket trusted
 //@ modifies cl.nsent, cl.sentpk
@@ -382,9 +382,10 @@ package mqtt
 //@ modifies entries(s.internal)
 //@ ensures has(s.internal, id)
 // verif:func mqtt.TopicsIndex.Subscribe trusted
-//@ modifies subsview
+//@ modifies subsview, nsubs
 //@ ensures r0 <==> !old(subsview[client][subscription.Filter])
 //@ ensures subsview[client][subscription.Filter]
+//@ ensures nsubs == old(nsubs) + (r0 ? 1 : 0)
 
 // verif:func mqtt.Server.inheritClientSession modifies=all
 //@ requires validCl(cl) && validSrv(s) && s.Clients != nil && s.Topics != nil && cl.State.Subscriptions != nil && cl.ops.options != nil && cl.ops.options.Capabilities != nil
@@ -456,3 +457,63 @@ package mqtt
 //@ ensures C03-queued-at-most-once: cl.State.outbound.qlen <= old(cl.State.outbound.qlen) + 1
 //@ ensures C24-alias-within-client-maximum: r0.Properties.TopicAlias <= cl.Properties.Props.TopicAliasMaximum || r0.Properties.TopicAlias == pk.Properties.TopicAlias
 //@ ensures C24-topic-or-known-alias: r1 == nil && !(sub.NoLocal && pk.Origin == cl.ID) && r0.TopicName == "" && pk.TopicName != "" ==> r0.Properties.TopicAlias > 0 && old(has(cl.State.TopicAliases.Outbound.internal, pk.TopicName))
+
+// ======================================================================================
+// SUBSCRIBE / UNSUBSCRIBE (C04, C07, C17, C23, C30, C38)
+// ======================================================================================
+// verif:spec sharedFilter(string) bool
+// number of (client, filter) entries in the subscription index
+// verif:ghost var nsubs int
+// events
+// verif:def EV_SUBSCRIBED() int = 8
+// verif:def EV_UNSUBSCRIBED() int = 9
+
+// verif:func mqtt.IsSharedFilter trusted pure
+//@ ensures r0 == sharedFilter(filter)
+// assumption A-hooks: subscribe/unsubscribe hooks return the packet with the same identifier, filters and properties
+// verif:func mqtt.Hooks.OnSubscribe trusted pure
+//@ ensures r0.PacketID == pk.PacketID && r0.Filters == pk.Filters && r0.Properties == pk.Properties
+// verif:func mqtt.Hooks.OnUnsubscribe trusted pure
+//@ ensures r0.PacketID == pk.PacketID && r0.Filters == pk.Filters && r0.Properties == pk.Properties
+// verif:func mqtt.Hooks.OnSubscribed trusted
+//@ modifies nev, evkind, evcl, evid
+//@ ensures ev1(EV_SUBSCRIBED(), cl, pk.PacketID)
+// verif:func mqtt.Hooks.OnUnsubscribed trusted
+//@ modifies nev, evkind, evcl, evid
+//@ ensures ev1(EV_UNSUBSCRIBED(), cl, pk.PacketID)
+// verif:func mqtt.Server.publishRetainedToClient trusted
+// verif:func mqtt.Subscriptions.Delete trusted
+//@ modifies entries(s.internal)
+// verif:func mqtt.TopicsIndex.Unsubscribe trusted
+//@ modifies subsview, nsubs
+//@ ensures r0 ==> nsubs == old(nsubs) - 1
+//@ ensures !r0 ==> nsubs == old(nsubs)
+//@ ensures !subsview[client][filter]
+
+// reason code the property prescribes for filter f requested with options sub (v5 value; MQTT 3 maps every failure to 0x80)
+// verif:def subCode5(s *Server, cl *Client, sub Subscription) byte = !validSub(sub.Filter) ? 143 : (sub.NoLocal && sharedFilter(sub.Filter) ? 130 : (!aclOK(cl, sub.Filter, false) ? (s.Options.Capabilities.Compatibilities.ObscureNotAuthorized ? 128 : 135) : (sub.Qos > s.Options.Capabilities.MaximumQos ? s.Options.Capabilities.MaximumQos : sub.Qos)))
+// verif:def subCode(s *Server, cl *Client, sub Subscription) byte = (cl.Properties.ProtocolVersion < 5 && subCode5(s, cl, sub) > 2) ? 128 : subCode5(s, cl, sub)
+
+// verif:func mqtt.Server.processSubscribe modifies=all
+//@ requires validCl(cl) && validSrv(s) && s.Topics != nil && cl.State.Subscriptions != nil && cl.State.Subscriptions.internal != nil && s.Options.Capabilities.MaximumQos <= 2
+//@ requires forall j int :: 0 <= j && j < len(pk.Filters) ==> pk.Filters[j].Qos <= 2
+//@ ensures C07-suback-or-error: r0 == nil ==> sentOne(cl) && lastSent(cl).FixedHeader.Type == Suback && lastSent(cl).PacketID == pk.PacketID && len(lastSent(cl).ReasonCodes) == len(pk.Filters)
+//@ ensures C04-C17-C30-one-code-per-filter-as-prescribed: r0 == nil && !old(has(ifl(cl), pk.PacketID)) ==> (forall j int :: 0 <= j && j < len(pk.Filters) ==> lastSent(cl).ReasonCodes[j] == subCode(s, cl, pk.Filters[j]))
+//@ ensures C23-mqtt3-suback-codes: r0 == nil && cl.Properties.ProtocolVersion < 5 ==> (forall j int :: 0 <= j && j < len(pk.Filters) ==> lastSent(cl).ReasonCodes[j] <= 2 || lastSent(cl).ReasonCodes[j] == 128)
+//@ ensures C38-subscription-counter-follows-index: s.Info.Subscriptions - old(s.Info.Subscriptions) == nsubs - old(nsubs)
+// verif:loop mqtt.Server.processSubscribe 1
+//@ invariant codes: !old(has(ifl(cl), pk.PacketID)) ==> (forall j int :: 0 <= j && j <= rangeindex ==> reasonCodes[j] == subCode(s, cl, pk.Filters[j]))
+//@ invariant v3codes: cl.Properties.ProtocolVersion < 5 ==> (forall j int :: 0 <= j && j <= rangeindex ==> reasonCodes[j] <= 2 || reasonCodes[j] == 128)
+//@ invariant counter: s.Info.Subscriptions - old(s.Info.Subscriptions) == nsubs - old(nsubs)
+//@ invariant valid: validCl(cl) && s != nil && s.Info != nil && s.hooks != nil && s.Options != nil && s.Options.Capabilities != nil && s.Options.Capabilities.Compatibilities != nil && s.Topics != nil && cl.State.Subscriptions != nil && cl.State.Subscriptions.internal != nil && sentNone(cl)
+//@ invariant bounded: old(s.Info.Subscriptions) <= s.Info.Subscriptions && s.Info.Subscriptions <= old(s.Info.Subscriptions) + rangeindex + 1
+//@ invariant version: cl.Properties.ProtocolVersion == old(cl.Properties.ProtocolVersion)
+
+// verif:func mqtt.Server.processUnsubscribe modifies=all
+//@ requires validCl(cl) && validSrv(s) && s.Topics != nil && cl.State.Subscriptions != nil
+//@ ensures C07-unsuback-or-error: r0 == nil ==> sentOne(cl) && lastSent(cl).FixedHeader.Type == Unsuback && lastSent(cl).PacketID == pk.PacketID && len(lastSent(cl).ReasonCodes) == len(pk.Filters)
+//@ ensures C38-subscription-counter-follows-index: s.Info.Subscriptions - old(s.Info.Subscriptions) == nsubs - old(nsubs)
+// verif:loop mqtt.Server.processUnsubscribe 1
+//@ invariant counter: s.Info.Subscriptions - old(s.Info.Subscriptions) == nsubs - old(nsubs)
+//@ invariant valid: validCl(cl) && s != nil && s.Info != nil && s.hooks != nil && s.Options != nil && s.Options.Capabilities != nil && s.Options.Capabilities.Compatibilities != nil && s.Topics != nil && cl.State.Subscriptions != nil && sentNone(cl)
+//@ invariant bounded: old(s.Info.Subscriptions) - rangeindex - 1 <= s.Info.Subscriptions && s.Info.Subscriptions <= old(s.Info.Subscriptions)
